@@ -325,6 +325,11 @@ func (e *exec) field(objType, objID string, fd *ast.FieldDefinition, f *ast.Fiel
 			return parsers.NewNum(ReplaceInt)
 		case DPassThenError:
 			resolve()
+			if kind == KAddErrNull {
+				// the resolver recorded its own error, then the directive fails as well
+				e.addErr(path, p.ErrMsg(path))
+				kind = KNull
+			}
 			if kind == KValue || kind == KNull {
 				e.addErr(path, p.DirErrMsg(path))
 				return parsers.NewNull()
@@ -334,7 +339,7 @@ func (e *exec) field(objType, objID string, fd *ast.FieldDefinition, f *ast.Fiel
 		resolve()
 	}
 	switch kind {
-	case KError:
+	case KError, KAddErrNull:
 		e.addErr(path, p.ErrMsg(path))
 		return parsers.NewNull()
 	case KPanic:
